@@ -133,7 +133,8 @@ class StepRegistry(object):
         step_location = new_step_matcher.location
         step_definitions = self.steps[new_step_type]
         for existing in step_definitions:
-            if self.same_step_definition(existing, step_text, step_location):
+            if self.same_step_definition(existing, new_step_matcher.pattern,
+                                         step_location):
                 # -- EXACT-STEP: Same step function is already registered.
                 # This may occur when a step module imports another one.
                 return
